@@ -202,4 +202,36 @@ theorem final_short (n : Nat) (c : Int) (prog : Nat → List Op) (log : List Ev)
       have := (nw_of_run prog log _ p hnw0 h t hnw).2
       rw [h1.1] at this; simp [inWait] at this
 
+/-- a state in which the lock is free and every thread is finished or parked without a token
+    accepts no event: it ends a maximal run -/
+theorem pstuck_of_rest (p : PSt) (hl : p.s.lock = none)
+    (h : ∀ t, t < p.s.n → p.s.pc t = .fin ∨ (p.s.pc t = .susp false ∧ p.s.tok t = 0)) : PStuck p := by
+  intro e
+  cases e <;> simp only [pstep, step] <;> (repeat' split) <;>
+    first
+    | rfl
+    | (simp_all; done)
+    | grind
+
+theorem progCost_le : ∀ l : List Op, progCost l ≤ 14 * l.length
+  | [] => Nat.le_refl _
+  | o :: l => by
+    have := progCost_le l
+    simp only [progCost, List.length_cons]
+    cases o <;> simp only [opRank] <;> omega
+
+/-- the bound is linear in the number of operations: at most `n + 14 * (number of operations)` -/
+theorem bound_le (n : Nat) (prog : Nat → List Op) :
+    bound n prog ≤ n + 14 * sumTo n (fun t => (prog t).length) := by
+  have h1 : sumTo n (fun t => progCost (prog t)) ≤ sumTo n (fun t => 14 * (prog t).length) :=
+    sumTo_mono (fun t _ => progCost_le (prog t))
+  have h2 : ∀ m, sumTo m (fun t => 14 * (prog t).length) = 14 * sumTo m (fun t => (prog t).length) := by
+    intro m
+    induction m with
+    | zero => rfl
+    | succ k ih => simp only [sumTo_succ, ih]; omega
+  simp only [bound]
+  rw [h2] at h1
+  omega
+
 end PikaVerif.Latch
